@@ -1399,7 +1399,10 @@ def main(argv):
                     cls2, lh2, out2 = replay_in_fresh_process(rp)
                     if v["cls"] not in cls2 or lh2 != v["loghash"]:
                         rep.harness_error("seed %s: minimised scenario does not replay in a fresh process (%s/%s vs %s/%s)" % (v["seed"], cls2, lh2, v["cls"], v["loghash"]))
-                        os.unlink(rp)
+                        try:
+                            os.unlink(rp)
+                        except OSError:
+                            pass
                         continue
                     rep.violation(v["identity"], rp, "%s\n%s\n(minimised in %d executions; %d events)" % (v["desc"], v["text"], v["min_execs"], len(v["log"])))
     wall = now() - t0
